@@ -426,6 +426,9 @@ class World:
         if len(body_stmts) == 1 and isinstance(body_stmts[0], ast.Return):
             out.add("trivial")
         for n in ast.walk(fn):
+            if isinstance(n, (ast.For, ast.While)) or (isinstance(n, ast.Subscript) and isinstance(n.ctx, ast.Store)) or \
+                    (isinstance(n, ast.AugAssign) and not isinstance(n.target, ast.Name)):
+                out.add("stores")       # fills arrays itself: followed, so that a loop moved into a helper is still seen
             if isinstance(n, (ast.Global, ast.Nonlocal)):
                 out.add("global")
             elif isinstance(n, ast.AugAssign):
